@@ -1595,6 +1595,64 @@ def _inline_index_properties(trees):
         ast.fix_missing_locations(t)
 
 
+def _inline_statement_closure(F, h, body):
+    """A nested function without `return` that is only called as a whole statement `h(args)` (call-free arguments, at most 4
+    calls) inside the enclosing function F is replaced by its body at those statements, when its parameters are never
+    re-bound in the body, it binds no local of its own that F also uses, and every free variable is bound at most once in F."""
+    import copy as _copy
+
+    if not body or h.args.defaults or any(isinstance(x, (ast.Return, ast.Yield, ast.YieldFrom, ast.Await, ast.FunctionDef, ast.Lambda, ast.Global, ast.Nonlocal, ast.ClassDef)) for s in body for x in ast.walk(s)):
+        return False
+    params = [a.arg for a in h.args.args]
+    stores = {x.id for s in body for x in ast.walk(s) if isinstance(x, ast.Name) and isinstance(x.ctx, (ast.Store, ast.Del))}
+    if stores & set(params):
+        return False
+    outside = [n for s in F.body if s is not h for n in ast.walk(s)]
+    if stores & {n.id for n in outside if isinstance(n, ast.Name)}:
+        return False
+    refs = [n for n in outside if isinstance(n, ast.Name) and n.id == h.name]
+    sites = []
+    for owner in [F] + outside:
+        for fld in ("body", "orelse", "finalbody"):
+            blk = getattr(owner, fld, None)
+            if isinstance(blk, list):
+                for st in blk:
+                    if isinstance(st, ast.Expr) and isinstance(st.value, ast.Call) and isinstance(st.value.func, ast.Name) and st.value.func.id == h.name and not any(st is s_[1] for s_ in sites):
+                        sites.append((blk, st))
+        if isinstance(owner, ast.Try):
+            for hd in owner.handlers:
+                for st in hd.body:
+                    if isinstance(st, ast.Expr) and isinstance(st.value, ast.Call) and isinstance(st.value.func, ast.Name) and st.value.func.id == h.name and not any(st is s_[1] for s_ in sites):
+                        sites.append((hd.body, st))
+    if not sites or len(sites) > 4 or len(refs) != len(sites):
+        return False
+    fparams = {a.arg for a in F.args.posonlyargs + F.args.args + F.args.kwonlyargs} | ({F.args.vararg.arg} if F.args.vararg else set()) | ({F.args.kwarg.arg} if F.args.kwarg else set())
+    free = {n.id for s in body for n in ast.walk(s) if isinstance(n, ast.Name) and isinstance(n.ctx, ast.Load) and n.id not in params and n.id not in stores}
+    after = [n for s in F.body[F.body.index(h) + 1 :] for n in ast.walk(s)] if h in F.body else outside
+    for v in free:
+        # the variable must keep, at every call, the value it had when the closure was defined: no store after the def
+        if any(isinstance(n, ast.Name) and n.id == v and isinstance(n.ctx, (ast.Store, ast.Del)) for n in after) or any(isinstance(n, ast.ExceptHandler) and n.name == v for n in after):
+            return False
+    binds = []
+    for blk, st in sites:
+        c = st.value
+        if c.keywords or any(isinstance(a, ast.Starred) for a in c.args) or len(c.args) != len(params) or any(isinstance(x, (ast.Call, ast.Await, ast.NamedExpr)) for a in c.args for x in ast.walk(a)):
+            return False
+        binds.append(dict(zip(params, c.args)))
+    for (blk, st), b in zip(sites, binds):
+        class R(ast.NodeTransformer):
+            def visit_Name(self, n_):
+                if n_.id in b and isinstance(n_.ctx, ast.Load):
+                    return ast.copy_location(_copy.deepcopy(b[n_.id]), n_)
+                return n_
+
+        new = [ast.fix_missing_locations(R().visit(_copy.deepcopy(s))) for s in body]
+        i = next(k for k, x in enumerate(blk) if x is st)
+        blk[i : i + 1] = new
+    F.body.remove(h)
+    return True
+
+
 def _inline_local_closures(trees):
     """A nested function whose body is a single `return <expr>` and that is only ever called by name inside the enclosing
     function (at most 6 calls, call-free arguments) is substituted at its calls, when every free variable of the
@@ -1609,6 +1667,7 @@ def _inline_local_closures(trees):
                     continue
                 body = [s for s in h.body if not (isinstance(s, ast.Expr) and isinstance(s.value, ast.Constant) and isinstance(s.value.value, str))]
                 if len(body) != 1 or not isinstance(body[0], ast.Return) or body[0].value is None:
+                    _inline_statement_closure(F, h, body)
                     continue
                 expr = body[0].value
                 if any(isinstance(x, (ast.Lambda, ast.ListComp, ast.SetComp, ast.DictComp, ast.GeneratorExp, ast.Yield, ast.YieldFrom, ast.Await, ast.NamedExpr)) for x in ast.walk(expr)):
@@ -1622,9 +1681,9 @@ def _inline_local_closures(trees):
                 free = {n.id for n in ast.walk(expr) if isinstance(n, ast.Name) and n.id not in params}
                 fparams = {a.arg for a in F.args.posonlyargs + F.args.args + F.args.kwonlyargs} | ({F.args.vararg.arg} if F.args.vararg else set()) | ({F.args.kwarg.arg} if F.args.kwarg else set())
                 bad = False
+                after_ = [n for s in F.body[F.body.index(h) + 1 :] for n in ast.walk(s)]
                 for v in free:
-                    nb = sum(1 for n in outside if isinstance(n, ast.Name) and n.id == v and isinstance(n.ctx, (ast.Store, ast.Del))) + sum(1 for n in outside if isinstance(n, ast.ExceptHandler) and n.name == v)
-                    if nb > (0 if v in fparams else 1):
+                    if any(isinstance(n, ast.Name) and n.id == v and isinstance(n.ctx, (ast.Store, ast.Del)) for n in after_) or any(isinstance(n, ast.ExceptHandler) and n.name == v for n in after_):
                         bad = True
                 if bad:
                     continue
